@@ -117,8 +117,29 @@ func c01Sizes(sizes []int) {
 	w, _ := newWT(st, "4")
 	w.Send([]*packet.Packet{{Type: packet.MESSAGE, Data: types.NewStringBuffer(append([]byte(nil), d...))}})
 	verif.Settle()
-	frames, ok := refDecodeWire(st.wire)
-	verif.Assert(ok && len(frames) == 1, "exactly one well-formed frame")
+	hl := 1
+	if n >= 65536 {
+		hl = 9
+	} else if n >= 126 {
+		hl = 3
+	}
+	verif.Assert(len(st.wire) == hl+n, "wire is exactly one header plus the payload")
+	if len(st.wire) != hl+n {
+		return
+	}
+	// the payload bytes are symbolic: compare the header with the reference header for n
+	var want []byte
+	switch hl {
+	case 1:
+		want = []byte{byte(n)}
+	case 3:
+		want = []byte{126, byte(n >> 8), byte(n)}
+	default:
+		want = []byte{127, 0, 0, 0, 0, byte(n >> 24), byte(n >> 16), byte(n >> 8), byte(n)}
+	}
+	verif.Assert(sameBytes(st.wire[:hl], want), "header is the reference header of a text frame of that length")
+	frames := []frame{{false, st.wire[hl:]}}
+	ok := true
 	if ok && len(frames) == 1 {
 		verif.Assert(!frames[0].binary && len(frames[0].payload) == n && frames[0].payload[0] == '4', "text frame of the encoded length")
 		j := verif.Int(0, n-2)
